@@ -323,7 +323,9 @@ class PathEval(object):
             if k in env:
                 return env[k]
             if c.get("fn") in self.call_values:
-                return self.call_values[c["fn"]]
+                cv = self.call_values[c["fn"]]
+                # a callable forces the result per call site / argument values (e.g. a predicate forced per type argument)
+                return cv(c, a) if callable(cv) else cv
             o = self.callee_outcome(c, a)
             if o is None or o["effect"]:
                 return None
